@@ -559,6 +559,9 @@ func genAnyDoc(r *Rng, c *Corpus) []byte {
 	if r.Split("long-line").Chance(1, 60) {
 		return genLongLine(r.Split("long-line-doc"))
 	}
+	if r.Split("struct").Chance(1, 5) {
+		return byteLevel(r, genStruct(r.Split("struct-doc")))
+	}
 	switch r.Intn(10) {
 	case 0, 1, 2, 3:
 		return genCorpusDoc(r, c)
